@@ -1,9 +1,24 @@
 use insim_core::{
     binrw::{self, binrw},
-    string::{binrw_parse_codepage_string_until_eof, binrw_write_codepage_string},
+    string::binrw_parse_codepage_string_until_eof,
 };
 
 use super::SoundType;
+
+const MTC_TEXT_MAX_LEN: usize = 128;
+
+/// Up to 128 characters of text, a multiple of 4 - and the last byte must be zero.
+#[binrw::writer(writer, endian)]
+fn binrw_write_mtc_text(input: &String) -> binrw::BinResult<()> {
+    use insim_core::binrw::BinWrite;
+
+    let mut res = insim_core::string::codepages::to_lossy_bytes(input).to_vec();
+    res.truncate(MTC_TEXT_MAX_LEN - 1);
+    // round up to the next multiple of 4 that leaves room for at least one \0
+    let round_to = (res.len() + 4) & !3;
+    res.resize(round_to, 0);
+    res.write_options(writer, endian, ())
+}
 use crate::identifiers::{ConnectionId, PlayerId, RequestId};
 
 #[binrw]
@@ -25,7 +40,7 @@ pub struct Mtc {
     pub plid: PlayerId,
 
     /// Message
-    #[bw(write_with = binrw_write_codepage_string::<128, _>, args(false, 4))]
+    #[bw(write_with = binrw_write_mtc_text)]
     #[br(parse_with = binrw_parse_codepage_string_until_eof)]
     pub text: String,
 }
